@@ -601,9 +601,12 @@ class _GenerateRenderMethod:
         namedecls = node.get_argument_expressions()
         nameargs = node.get_argument_expressions(as_call=True)
 
+        # the scope of the template body, whichever closure of it (call
+        # body, def inside a <%call>, anonymous block) the stub is written in
+        body_identifiers = self.identifier_stack[1]
         if not self.in_def and (
-            len(self.identifiers.locally_assigned) > 0
-            or len(self.identifiers.argument_declared) > 0
+            len(body_identifiers.locally_assigned) > 0
+            or len(body_identifiers.argument_declared) > 0
         ):
             nameargs.insert(0, "context._locals(__M_locals)")
         else:
